@@ -4,7 +4,9 @@ import random
 
 from .. import covariance_eval as ce
 from .. import machine_eval as me
+from .. import polygon_driver as pd
 from .. import prism_eval
+from .. import tri_eval
 from ..placement import fl, palette
 from ..pool import pmap
 
@@ -75,6 +77,13 @@ def run(ctx):
     grown = prism_eval.emit(ctx, 4, 10, "Tri0", [1], simulate=2 if quick else 12, depth=9)
     precs += prism_eval.pick(grown, 10 if quick else 150, ctx.seed)
     ctx.extra["prisms"] = len(precs)
+    # the ear clipping itself (AlgPolygon.tla ATriangulate): T1 in the spec, T2 validity of what the code returns
+    pd.t1_triangulate(ctx, 2, 5 if quick else 6, "NamedSmall" if quick else "Named")
+    trecs = pd.emit_named(ctx, "NamedSmall" if quick else "Named", relabel=True)
+    small = pd.emit_polygons(ctx, 2, 5 if quick else 6)
+    trecs += [r for r in small if len(r["v"]) > 3][::(9 if quick else 1)]
+    ctx.extra["polygons_triangulated"] = len(trecs)
+    tri_eval.replay(ctx, tri_eval.build_cases(trecs, ctx.tier, ctx.seed))
     prism_eval.replay(ctx, prism_eval.build_cases(precs, ctx.tier, ctx.seed))
     ctx.exhaustive = False
     return ctx.finish(rule=RULE, assumptions=[
